@@ -1,9 +1,36 @@
-(* C02/Proofs.v — lemmas about the persistent mutations (first, small facts). *)
+(* C02/Proofs.v — property-level corollaries of the node-level step summaries (Raft/NodeProofs.v). *)
 From Coq Require Import List NArith ZArith Bool Lia.
-From BLB Require Import Raft.Core.
+From BLB Require Import Raft.Core Raft.NodeProofs.
 Import ListNotations.
 Open Scope N_scope.
 
 Lemma term_written_only_by_save_state :
   forall p m, p_term (apply_mut p m) <> p_term p -> exists v t, m = MSaveState v t.
 Proof. intros p m H. destruct m; simpl in H; try congruence. eauto. Qed.
+
+(* every event (Bootstrap, Deliver of ANY message, Tick, Propose, AddNode, RemoveNode, SnapshotDone, Restart), with or
+   without a crash after its k-th durable mutation followed by newCore *)
+Lemma term_monotone_lemma :
+  forall s ev k crashed st s',
+    run_event_crash s ev k = Ret (crashed, st, s') -> p_term (n_p s) <= p_term (n_p s').
+Proof.
+  intros s ev k crashed st s' H. pose proof (run_event_crash_pext s ev k) as P. rewrite H in P.
+  destruct P as [[A _] _]. exact A.
+Qed.
+
+Lemma vote_once_per_term_lemma :
+  forall s ev k crashed st s',
+    run_event_crash s ev k = Ret (crashed, st, s') ->
+    p_term (n_p s') = p_term (n_p s) -> p_vote (n_p s) <> 0 -> p_vote (n_p s') = p_vote (n_p s).
+Proof.
+  intros s ev k crashed st s' H Ht Hv. pose proof (run_event_crash_pext s ev k) as P. rewrite H in P.
+  destruct P as [[_ [B _]] _]. destruct (B Ht); congruence.
+Qed.
+
+Lemma run_event_crash_0 s ev : run_event_crash s ev 0 =
+  match run_event (with_budget s 0) ev with
+  | Ret (st, s') => Ret (false, st, with_budget s' 0)
+  | Fatal c => Fatal c
+  | Crashed p => s' <- new_core (n_id s) (n_cfg s) p ;; Ret (true, 0, s')
+  end.
+Proof. reflexivity. Qed.
